@@ -6,7 +6,7 @@ From Coq Require Import List Arith Bool NArith.
 From GV Require Import Base.Result Gen.TokenTypes Gen.Defs Gen.Instr Model.Parser Model.BuilderWL Model.Compile
   Spec.WfCode Spec.Depth Spec.Reloc Proofs.C05.Known Proofs.C05.Operands Proofs.C05.Statements
   Proofs.C06.Balanced Proofs.C06.StaticFull Proofs.C20.Bounded Proofs.C20.Statements
-  Proofs.Builder.BState Proofs.Builder.RootsSim.
+  Proofs.Builder.BState Proofs.Builder.RootsSim Proofs.Builder.ValidTree.
 Import ListNotations.
 
 (* the statement of the link itself, in the vocabulary of the property files *)
@@ -86,4 +86,56 @@ Proof.
   intros nodes root t init lit fuel fuel0 r r0 Ht H1 H2 Hb Hb0.
   exact (C20_relocated_full_proof nodes root t init lit _ _ Ht H1 H2
            (compile_agrees_full_proof _ _ _ _ _ _ _ Ht Hb) (compile_agrees_full_proof _ _ _ _ _ _ _ Ht Hb0)).
+Qed.
+
+(* ---- for everything the parser model accepts ---- *)
+Lemma validate_tree_of_proof : forall nodes root, validate_tree nodes root = Ok tt -> exists t, tree_of nodes root = Some t.
+Proof. exact validate_tree_of. Qed.
+
+Lemma parse_tree_of_proof : forall toks root nodes,
+  parse toks = Ok (root, nodes) -> nodes = [] \/ exists t, tree_of nodes root = Some t.
+Proof. exact parse_tree_of. Qed.
+
+Lemma compile_agrees_parsed_proof : forall toks root nodes,
+  parse toks = Ok (root, nodes) -> nodes <> [] ->
+  exists t, tree_of nodes root = Some t /\
+    forall init lit fuel r, build nodes init lit fuel root = Ok r ->
+      compile init lit t = Ok (mkC (instrs (fst r)) (meta (fst r)) (jumps (fst r)), snd r).
+Proof.
+  intros toks root nodes Hp Hne. destruct (parse_tree_of _ _ _ Hp) as [E|[t Ht]]; [contradiction|].
+  exists t. split; [exact Ht|]. intros init lit fuel r Hb. exact (compile_agrees_full_proof _ _ _ _ _ _ _ Ht Hb).
+Qed.
+
+Lemma C05_full_parsed_proof : forall toks root nodes,
+  parse toks = Ok (root, nodes) -> nodes <> [] ->
+  exists t, tree_of nodes root = Some t /\
+    forall init lit fuel r, ~ Known_C05_K1 init t -> ~ Known_C05_K2 t ->
+      build nodes init lit fuel root = Ok r -> wf_code nodes init (code_of_build r).
+Proof.
+  intros toks root nodes Hp Hne. destruct (parse_tree_of _ _ _ Hp) as [E|[t Ht]]; [contradiction|].
+  exists t. split; [exact Ht|]. intros init lit fuel r H1 H2 Hb. exact (C05_full_builder_proof _ _ _ _ _ _ _ Ht H1 H2 Hb).
+Qed.
+
+Lemma C06_static_full_parsed_proof : forall toks root nodes,
+  parse toks = Ok (root, nodes) -> nodes <> [] ->
+  exists t, tree_of nodes root = Some t /\
+    (balanced t = true -> forall init lit fuel r, build nodes init lit fuel root = Ok r ->
+       let p := prog_of_build init r in
+       exists d, typed p d /\ ends_at_one p d /\ exists e, pjump p (snd r) = Some e /\ d e = Some (0, 0)).
+Proof.
+  intros toks root nodes Hp Hne. destruct (parse_tree_of _ _ _ Hp) as [E|[t Ht]]; [contradiction|].
+  exists t. split; [exact Ht|]. intros Hbal init lit fuel r Hb. exact (C06_static_full_builder_proof _ _ _ _ _ _ _ Ht Hbal Hb).
+Qed.
+
+Lemma C20_relocated_full_parsed_proof : forall toks root nodes,
+  parse toks = Ok (root, nodes) -> nodes <> [] ->
+  exists t, tree_of nodes root = Some t /\
+    forall init lit fuel fuel0 r r0, ~ Known_C05_K1 init t -> ~ Known_C05_K2 t ->
+      build nodes init lit fuel root = Ok r -> build nodes empty_init lit fuel0 root = Ok r0 ->
+      relocated init (code_of_build r0) (code_of_build r) = true /\ own_code init (code_of_build r) = true.
+Proof.
+  intros toks root nodes Hp Hne. destruct (parse_tree_of _ _ _ Hp) as [E|[t Ht]]; [contradiction|].
+  exists t. split; [exact Ht|]. intros init lit fuel fuel0 r r0 H1 H2 Hb Hb0. split.
+  - exact (C20_relocated_full_builder_proof _ _ _ _ _ _ _ _ _ Ht H1 H2 Hb Hb0).
+  - exact (C20_frame_full_builder_proof _ _ _ _ _ _ _ Ht H1 H2 Hb).
 Qed.
